@@ -142,8 +142,14 @@ func (r *faultRun) commit() {
 	e.Tx, e.T = nil, nil
 	if err == nil {
 		if e.Disk.Faults > f0 {
-			// which call failed?
-			e.Viol = append(e.Viol, pagedrv.Violation{Class: "fault/commit-succeeded-despite-failure", Msg: "Commit returned nil although an I/O call failed while it ran"})
+			// A failure after the new header has been synced hits the maintenance step that follows the on-disk
+			// commit (cutting the file, growing the mapped region): the transaction is committed, the step is
+			// retried later. Any earlier failure must make Commit fail.
+			if _, post := commitPhase(e.Disk, l0); !post {
+				e.Viol = append(e.Viol, pagedrv.Violation{Class: "fault/commit-succeeded-despite-failure", Msg: "Commit returned nil although an I/O call failed while it ran"})
+			} else {
+				r.note("post-commit-failure")
+			}
 		}
 		e.M = next
 		e.Maybe = nil
@@ -288,7 +294,15 @@ func (r *faultRun) checkInProcess(when string) {
 	if e.F == nil || e.Dead {
 		return
 	}
+	f0, nv := e.Disk.Faults, len(e.Viol)
 	e.VerifyAgainst(e.M, when, "fault/in-process")
+	if e.Disk.Faults > f0 {
+		// an I/O call failed while the read transaction was started (e.g. the file had to be mapped again):
+		// an error is the expected answer, there is nothing to compare
+		e.Viol = e.Viol[:nv]
+		e.Dead = false
+		r.note("begin=err")
+	}
 }
 
 func runFault(cfg pagedrv.Cfg, path []O, rec *FaultRecipe) (viol []pagedrv.Violation, outcome string, calls []simdisk.CallKind, window [2]int, faults int) {
